@@ -277,6 +277,14 @@ public:
  */
 extern bool opn2_isEmulatorAvailable(int emulator);
 
+#ifdef OPNMIDI_VERIF
+/**
+ * @brief Verification-only tap called on every chip register/pan write (NULL by default)
+ */
+extern "C" void (*opnmidi_verif_regtap)(const void *synth, unsigned chip, unsigned port,
+                                        unsigned reg, unsigned val, int isPan);
+#endif
+
 /**
  * @brief Find highest emulator
  * @return The Opn2_Emulator enum value which contains ID of highest emulator
